@@ -40,6 +40,8 @@ RULES = {
     "C01": "family caching: every DAG of <= N nodes over datasets (overloads, pre-set/default options, callbacks, effects), cached(), "
            "switch, coalesce, wrappers, collections, Map; all dictionaries of the graph evaluated in 4 orders (forward, reverse, two "
            "seeded shuffles) on ONE long-lived real graph, each outcome compared with a freshly built copy and with the specification; "
+           "sibling derivatives of the root dataset evaluated one after the other; the cache requests of the repository's own pytest "
+           "session validated by TLC against Trace_Requests.tla (exists/get answer from what was stored, set only after a miss); "
            "non-trivial = an evaluation that had predecessors on the same instance",
     "C02": "family caching: per (graph, dictionary): body runs per cached dataset in one evaluation <= the specification's distinct "
            "demands (Permit); effects only after their body; then exact repeat / added+changed unmentioned keys / permuted key order "
